@@ -17,7 +17,7 @@ def sw(r, *names): return sum(r.get('probes', {}).get(n, 0) for n in names)
 
 PROPS = {
  'C01': {
-   'families': [('c01_random', 5, ALLU), ('c01_pagecycle', 2, ALLU), ('c01_spanchurn', 2, ALLU), ('c01_huge', 1.5, ALLU), ('c01_zerosize', 0.5, ALL)],
+   'families': [('c01_random', 5, ALLU), ('c01_pagecycle', 2, ALLU), ('c01_pagequeue', 3, ALLU), ('c01_spanchurn', 2, ALLU), ('c01_huge', 1.5, ALLU), ('c01_zerosize', 0.5, ALL)],
    'runs': {'quick': 3000, 'thorough': 150000},
    'rule': 'plans are generated from hash(VERIF_SEED, family, i); a run is non-trivial if it executed >= 20 allocation calls and >= 5 frees; distinct = distinct hash of all API results (addresses, sizes)',
    'nontrivial': lambda r: r.get('allocs', 0) >= 20 and r.get('frees', 0) >= 5, 'distinct_by': 'api+sched',
